@@ -111,6 +111,73 @@ func streamC11(env *runEnv) {
 			}
 		}
 	}
+	c11Overlap(env, srv)
+}
+
+// c11Overlap: two tunnels whose lifetimes overlap and that end in the order they began (and in the reverse
+// order): after each ending the gauges and the registry count exactly the tunnels that are still up.
+func c11Overlap(env *runEnv, srv *l2server) {
+	for _, transport := range []string{"ws", "legacy"} {
+		for _, order := range []string{"first-ends-first", "last-ends-first"} {
+			time.Sleep(50 * time.Millisecond)
+			base := snapshotResources()
+			gauge := func(r resources) float64 {
+				if transport == "ws" {
+					return r.wsGauge
+				}
+				return r.lgGauge
+			}
+			open := func(tag string) tclient {
+				c, err := openTunnel(srv.inst, tunnelScript{transport: transport, id: fmt.Sprintf("{c11-overlap-%s-%s-%s-%d}", transport, order, tag, env.seed)})
+				if err != nil {
+					return nil
+				}
+				c.send(packet(ptHandshake, handshakeBody(1, 0, 0, 2)))
+				c.recv(2 * time.Second)
+				return c
+			}
+			a, b := open("a"), open("b")
+			obs := "ERR:open"
+			if a != nil && b != nil {
+				first, second := a, b
+				if order == "last-ends-first" {
+					first, second = b, a
+				}
+				wait := func(want float64, conns int) bool {
+					for dl := time.Now().Add(2 * time.Second); time.Now().Before(dl); time.Sleep(10 * time.Millisecond) {
+						r := snapshotResources()
+						if gauge(r) == gauge(base)+want && r.conns == base.conns+conns {
+							return true
+						}
+					}
+					return false
+				}
+				ok2 := wait(2, 2)
+				first.close()
+				ok1 := wait(1, 1)
+				second.close()
+				ok0 := wait(0, 0)
+				got := snapshotResources()
+				st := func(ok bool) string {
+					if ok {
+						return "ok"
+					}
+					return "leak"
+				}
+				obs = fmt.Sprintf("backend=none client=closed registry=%s gauges=%s goroutines=%s",
+					st(got.conns <= base.conns), st(ok2 && ok1 && ok0 && gauge(got) == gauge(base)), st(got.goroutines <= base.goroutines))
+			} else {
+				if a != nil {
+					a.close()
+				}
+				if b != nil {
+					b.close()
+				}
+			}
+			env.count("c11.overlap." + transport)
+			env.emit("lifecycle", transport, "handshake", "two-overlapping-tunnels-"+order, obs)
+		}
+	}
 }
 
 func runC11Cell(srv *l2server, transport, point, cause, id string) string {
